@@ -19,6 +19,7 @@ type Env struct {
 	resolve func(name string) (Val, bool)
 	inOld   bool
 	depth   int
+	prev    *Env // loop-iteration start (state and variable values at the loop header)
 }
 
 func (e *Env) fail(format string, args ...interface{}) {
@@ -190,6 +191,54 @@ func structField(t types.Type, name string) (int, bool) {
 }
 
 // evalLoc evaluates an expression denoting a memory location.
+// shifted returns the environment in which the operand of old(...) / prev(...) is evaluated.
+func (e *Env) shifted(x *SExpr) *Env {
+	if x.Name == "prev" {
+		if e.prev == nil {
+			e.fail("prev() is only available in body-end assertions")
+			return nil
+		}
+		n := *e.prev
+		n.vars = map[string]Val{}
+		for k, v := range e.prev.vars {
+			n.vars[k] = v
+		}
+		for k, v := range e.vars {
+			n.vars[k] = v // quantifier-bound variables of the enclosing expression
+		}
+		return &n
+	}
+	if e.old == nil {
+		e.fail("old() not available here")
+		return nil
+	}
+	n := *e
+	n.st = e.old
+	n.inOld = true
+	return &n
+}
+
+// evalRow evaluates a slice-valued argument of a prelude function to (row, offset, isnil),
+// taking the row from the state the argument refers to (old/prev aware).
+func (e *Env) evalRow(x *SExpr) (row, off, isnil string, ok bool) {
+	if x.Kind == SOld {
+		n := e.shifted(x)
+		if n == nil {
+			return "", "", "", false
+		}
+		return n.evalRow(x.X)
+	}
+	v := e.eval(x)
+	if isNilVal(v) {
+		return "((as const (Array Int Int)) 0)", "0", "true", true
+	}
+	if v.Sort != SortSlice || v.T == nil {
+		return "", "", "", false
+	}
+	r, _ := e.a.rowTerm(e.st, v, elemTypeOf(v.T))
+	return r, sOff(v.Term), app("=", sArr(v.Term), "0"), true
+}
+
 func (e *Env) evalLoc(x *SExpr) *Loc {
 	switch x.Kind {
 	case SSel:
@@ -257,11 +306,8 @@ func (e *Env) eval(x *SExpr) Val {
 		e.fail("unknown identifier %s", x.Name)
 		return intVal("0")
 	case SOld:
-		n := *e
-		n.st = e.old
-		n.inOld = true
-		if e.old == nil {
-			e.fail("old() not available here")
+		n := e.shifted(x)
+		if n == nil {
 			return intVal("0")
 		}
 		return n.eval(x.X)
@@ -440,12 +486,10 @@ func (e *Env) binary(x *SExpr) Val {
 func (e *Env) quant(x *SExpr) Val {
 	vc := e.a.vc
 	n := e
-	var binds []string
 	var names []string
 	for _, v := range x.Vars {
 		nm := vc.fresh("q_" + v)
 		names = append(names, nm)
-		binds = append(binds, "("+nm+" Int)")
 		n = n.with(v, Val{Sort: SortInt, T: types.Typ[types.Int], Term: nm})
 	}
 	var guard, body string
@@ -459,18 +503,13 @@ func (e *Env) quant(x *SExpr) Val {
 		guard = "true"
 		body = n.evalBool(x.Args[0])
 	}
+	var inner string
 	if x.Name == "forall" {
-		inner := implies(guard, body)
-		if pats := patternsFor(inner, names); pats != "" {
-			return boolVal(fmt.Sprintf("(forall (%s) (! %s %s))", strings.Join(binds, " "), inner, pats))
-		}
-		return boolVal(fmt.Sprintf("(forall (%s) %s)", strings.Join(binds, " "), inner))
+		inner = implies(guard, body)
+	} else {
+		inner = and(guard, body)
 	}
-	inner := and(guard, body)
-	if pats := patternsFor(inner, names); pats != "" {
-		return boolVal(fmt.Sprintf("(exists (%s) (! %s %s))", strings.Join(binds, " "), inner, pats))
-	}
-	return boolVal(fmt.Sprintf("(exists (%s) %s)", strings.Join(binds, " "), inner))
+	return boolVal(buildQuant(x.Name, names, inner))
 }
 
 // ---------------------------------------------------------------- calls
@@ -654,27 +693,19 @@ func (e *Env) preludeCall(sig *preludeSig, x *SExpr) Val {
 	}
 	var ts []string
 	for i, k := range sig.params {
-		v := e.eval(x.Args[i])
 		switch k {
 		case "row", "rowz":
-			if v.Sort != SortSlice || v.T == nil {
-				if isNilVal(v) && k == "rowz" {
-					ts = append(ts, "((as const (Array Int Int)) 0)", "0", "true")
-					continue
-				}
+			row, off, isnil, ok := e.evalRow(x.Args[i])
+			if !ok {
 				e.fail("%s: argument %d must be a slice", sig.name, i+1)
-				ts = append(ts, "((as const (Array Int Int)) 0)", "0")
-				if k == "rowz" {
-					ts = append(ts, "true")
-				}
-				continue
+				row, off, isnil = "((as const (Array Int Int)) 0)", "0", "true"
 			}
-			row, _ := e.a.rowTerm(e.st, v, elemTypeOf(v.T))
-			ts = append(ts, row, sOff(v.Term))
+			ts = append(ts, row, off)
 			if k == "rowz" {
-				ts = append(ts, app("=", sArr(v.Term), "0"))
+				ts = append(ts, isnil)
 			}
 		default:
+			v := e.eval(x.Args[i])
 			ts = append(ts, v.Term)
 		}
 	}
